@@ -252,7 +252,7 @@ func extensionBinary() (string, error) {
 		if repo == "" {
 			repo = "/repo"
 		}
-		d, err := os.MkdirTemp("", "c20-bin-")
+		d, err := os.MkdirTemp(workDir(), "c20-bin-")
 		if err != nil {
 			binErr = err
 			return
@@ -485,7 +485,7 @@ func runScenario(in input) (res result) {
 	apiURL, _ := url.Parse(api.URL)
 
 	// ---- the extension, wired as cmd/lambda-extension does through pkg/lambda.NewExtension
-	dir, err := os.MkdirTemp("", "c20-")
+	dir, err := os.MkdirTemp(workDir(), "c20-")
 	if err != nil {
 		res.infra = err.Error()
 		return
@@ -1440,4 +1440,14 @@ func main() {
 		os.RemoveAll(d)
 	}
 	tmpMu.Unlock()
+}
+
+// workDir is where scratch directories go: the harness's working directory (the driver's per-run work
+// directory, removed by the driver), so that nothing is left under /tmp when the process is killed.
+func workDir() string {
+	wd, err := os.Getwd()
+	if err != nil {
+		return ""
+	}
+	return wd
 }
